@@ -30,9 +30,11 @@ def JudgeOut.viol (m s : String) : JudgeOut := { verdict := "VIOL", model := m, 
     `outputs known` must list `(id, model output with exactly the toggles in ids…)`.
     * `spec`  : output required by the property
     * `modelK`: output of the model with all KNOWN toggles on
-    * `single`: for each known id, output of the model with all KNOWN toggles on
-                *except* that id (used to attribute a deviation to a finding). -/
-def triage (impl spec modelK : String) (attrib : List (String × String)) : JudgeOut :=
+    * `attrib`: for each known id, output of the model with all KNOWN toggles on
+                *except* that id (used to attribute a deviation to a finding)
+    * `knownIds`: the ids of this property's toggles that are currently enabled (optional;
+                used when only a combination of listed defects explains the deviation). -/
+def triage (impl spec modelK : String) (attrib : List (String × String)) (knownIds : List String := []) : JudgeOut :=
   if impl = spec then
     if modelK = spec then .ok
     else
@@ -43,7 +45,12 @@ def triage (impl spec modelK : String) (attrib : List (String × String)) : Judg
     -- removal changes the model output on this case
     match attrib.find? (fun p => p.2 ≠ modelK) with
     | some (id, _) => .known id modelK spec
-    | none => .viol modelK spec
+    | none =>
+      -- several listed defects act together (removing any single one leaves the output
+      -- unchanged): the deviation is still exactly the one the listed findings produce
+      match knownIds with
+      | id :: _ => .known id modelK spec
+      | [] => .viol modelK spec
   else .viol modelK spec
 
 def splitCsv (s : String) : List String :=
